@@ -51,13 +51,13 @@ def plan(tier, seed):
                 if n >= 3:
                     for variant in ("limit1", "implicit"):
                         shards.append({"tree": t, "naming": "identity", "k": 2, "variant": variant, "bound": f"trees<={n_max} alias keys<=2 variant={variant}"})
-    return {"shards": shards, "require_nonzero": ["label:aliased", "label:plain", "unknown-key:ERR", "spacing"]}
+    return {"shards": shards, "require_nonzero": ["label:aliased", "label:plain", "unknown-key:ERR", "spacing", "alias-dict-reused"]}
 
 
-def one_call(ev, ns, aliases, spacing, extra, rec):
+def one_call(ev, ns, aliases, spacing, extra, rec, copy_aliases=True):
     kwargs = dict(extra)
     if aliases is not None:
-        kwargs["aliases"] = dict(aliases)
+        kwargs["aliases"] = dict(aliases) if copy_aliases else aliases
     if spacing is not None:
         kwargs["spacing"] = spacing
     rec.calls.clear()
@@ -182,6 +182,36 @@ def run_shard(shard, tier, seed):
                         v = ("label-depends-on-earlier-visualize-calls:" + v[0], v[1], v[2])
                     res.violation(v[0], case, v[1], v[2])
                 history.append(call_rec)
+    # one alias dict object handed to visualize() of two different architectures in a row (the full
+    # tree, then the same tree with level_limit=1): the second call must be judged by the dict the
+    # user wrote, and must not reject keys the user never gave
+    if variant == "plain" and len(ns) >= 3:
+        top = [n for n in ns if n.count(".") <= 1]
+        ev_full, _ = build_variant(ns, I, "plain")
+        for k in (1, 2):
+            for keys in itertools.combinations(top, k):
+                for vals in itertools.product(ALIAS_POOL[:3], repeat=k):
+                    original = dict(zip(keys, vals))
+                    d = dict(original)
+                    rec = Recorder()
+                    old = nxg.draw_networkx
+                    nxg.draw_networkx = rec
+                    try:
+                        one_call(ev_full, ns, d, None, {}, rec, copy_aliases=False)
+                        ev_lim, eff = build_variant(ns, I, "limit1")
+                        out = one_call(ev_lim, ns, d, None, {}, rec, copy_aliases=False)
+                    finally:
+                        nxg.draw_networkx = old
+                    res.transitions += 2
+                    res.evaluations += 1
+                    res.traces += 1
+                    res.nontrivial += 1
+                    res.stats["alias-dict-reused"] += 1
+                    exp = {m: label_model(m, original) for m in eff}
+                    got = out[1][0][1].get("labels") if out[0] == "OK" and out[1] else list(out)
+                    if got != exp:
+                        res.violation("labels-after-the-alias-dict-was-used-for-another-architecture",
+                                      {"modules": ns, "imports": I, "aliases": original, "spacing": None, "extra": {}, "variant": "dict-reuse"}, exp, got)
     # unknown alias keys
     for bad in [ns[-1] + "x", ns[-1][:-1], "zzz", ns[-1] + ".q"]:
         if bad in ns:
@@ -202,6 +232,20 @@ def _check_case(case):
     I = [tuple(e) for e in case["imports"]]
     ev = None
     variant = case.get("variant", "plain")
+    if variant == "dict-reuse":
+        rec = Recorder()
+        old = nxg.draw_networkx
+        nxg.draw_networkx = rec
+        try:
+            d = dict(case["aliases"])
+            one_call(build_variant(case["modules"], I, "plain")[0], case["modules"], d, None, {}, rec, copy_aliases=False)
+            ev_lim, eff = build_variant(case["modules"], I, "limit1")
+            out = one_call(ev_lim, case["modules"], d, None, {}, rec, copy_aliases=False)
+        finally:
+            nxg.draw_networkx = old
+        exp = {m: label_model(m, case["aliases"]) for m in eff}
+        got = out[1][0][1].get("labels") if out[0] == "OK" and out[1] else list(out)
+        return ("labels-after-the-alias-dict-was-used-for-another-architecture", exp, got) if got != exp else None
     if case.get("history"):
         ev = build_variant(case["modules"], I, variant)[0]
         for h in case["history"]:
@@ -211,6 +255,8 @@ def _check_case(case):
 
 def minimise(v):
     case = dict(v["case"])
+    if case.get("variant") == "dict-reuse":
+        return dict(v, signature=f"{v['kind']}:keys{len(case['aliases'])}")
     if case.get("history"):
         v = dict(v)
         v["signature"] = f"{v['kind']}:history{len(case['history'])}"
